@@ -77,7 +77,9 @@ for bad in ('\x7f', '\x01', 'é', '\t', '€'):
     if b is None or b.valid_ascii or bad in str(b) or b.software != 'Open?SSH_8.9':
         fail({'line': repr(line)}, None if b is None else {'shown': str(b), 'valid_ascii': b.valid_ascii}, 'replaced by ? and flagged', 'sanitise')
 # header / banner separation through the real socket reader, with every segmentation of the byte stream tried at small sizes
-pre = [[], [b'Welcome to host'], [b'line one', b'', b'SSH is great', b'   ']]
+pre = [[], [b'Welcome to host'], [b'line one', b'', b'SSH is great', b'   '],
+       # lines that merely mention an identification-like token are header lines, not the peer's identification string
+       [b'Notice: only SSH-2.0-compatible clients are supported'], [b'this gateway predates SSH-2.0', b'  SSH-1.99-indented is not one either']]
 for hdr in pre:
     for eol in (b'\r\n', b'\n'):
         for seg in (None, 1, 7):
